@@ -71,6 +71,9 @@ func vfDataFiles(home string) map[int]vfFileState {
 }
 
 func vfQuiet() {
+	if os.Getenv("VERIF_STORE_LOG") != "" { // triage aid: keep the store's own log on stderr
+		return
+	}
 	loghub.ErrorLogger.SetLevel(loghub.FATAL)
 }
 
